@@ -123,7 +123,7 @@ class AtProxy:
         self.s, self.idx = s, idx
 
     def __getitem__(self, i):
-        return AtProxy(self.s, i)
+        return AtProxy(self.s, _norm_index(i))
 
     def set(self, v, **k):
         return term('at_set', self.s, self.idx, v)
@@ -169,17 +169,32 @@ _SYM_METHOD_AS_FUNCTION = {'any': '_jnp_any', 'all': '_jnp_all', 'sum': '_jnp_su
 Sym.__getattr__ = _sym_getattr
 
 
+def _norm_index(i):
+    """one spelling for equivalent index expressions: [0:k] == [:k], [a:b:1] == [a:b], (i,) == i"""
+    if isinstance(i, tuple) and len(i) == 1:
+        return _norm_index(i[0])
+    if isinstance(i, slice):
+        start = None if (isinstance(i.start, int) and not isinstance(i.start, bool) and i.start == 0) else i.start
+        step = None if (isinstance(i.step, int) and i.step == 1) else i.step
+        return slice(start, i.stop, step)
+    if isinstance(i, tuple):
+        return tuple(_norm_index(x) for x in i)
+    return i
+
+
 class _ATAt:
     def __init__(self, a, idx=None):
         self.a, self.idx = a, idx
 
     def __getitem__(self, i):
-        return _ATAt(self.a, i)
+        return _ATAt(self.a, _norm_index(i))
 
     def set(self, v, **k):
         return term('at_set', self.a, self.idx, v)
 
     def add(self, v, **k):
+        if isinstance(self.a, AT) and all(p.is_zero() for p in self.a.entries()):
+            return term('at_set', self.a, self.idx, v)      # adding to zeros == setting
         return term('at_add', self.a, self.idx, v)
 
 
@@ -633,9 +648,25 @@ def same(a, b):
         return a is b
 
 
+def _canonical_polarity(pred):
+    """True if `pred` (rather than its negation) is the canonical one of the pair: cond(p, a, b) and cond(not p, b, a) get the
+    same term"""
+    try:
+        n = pred.negate()
+    except Exception:
+        return True
+    if isinstance(n, Pred) and n.kind == 'not':
+        return True                      # pred is an atom whose negation is only expressible as not(pred)
+    if pred.kind == 'not':
+        return False
+    return repr(pred) <= repr(n)
+
+
 def merge_cond(pred, a, b):
     if same(a, b):
         return a
+    if isinstance(pred, Pred) and not _canonical_polarity(pred):
+        pred, a, b = pred.negate(), b, a
     if isinstance(a, Inst) and isinstance(b, Inst) and a.cls is b.cls:
         keys = list(a.fields)
         return a.replace_fields({k: merge_cond(pred, a.fields[k], b.fields.get(k)) for k in keys})
@@ -967,8 +998,9 @@ def _jnp_sum_model(x, *a, **k):
     """the sum of a boolean comparison counts its true entries: canonical form count_nonzero(pred)"""
     if isinstance(x, Pred) and not a and not {kk for kk, v in k.items() if v is not None}:
         return term('count_nonzero', x)
-    if isinstance(x, Sym) and x.op == 'cond' and len(x.args) == 3 and x.args[1:] == (1, 0) and not a and not k:
-        return term('count_nonzero', x.args[0])       # sum(where(mask, 1, 0))
+    if isinstance(x, Sym) and x.op == 'cond' and len(x.args) == 3 and x.args[1:] in ((1, 0), (0, 1)) and not a and not k:
+        m_ = x.args[0] if x.args[1:] == (1, 0) else x.args[0].negate()
+        return term('count_nonzero', m_)       # sum(where(mask, 1, 0))
     return _sum_sym(x, *a, **k)
 
 
@@ -976,6 +1008,25 @@ def _linalg_norm(x, ord=None, axis=None, keepdims=False):
     if ord not in (None, 2) or keepdims:
         raise Top("linalg.norm with ord / keepdims")
     return alg.jnp_linalg_norm(x, axis=axis)
+
+
+def _attrgetter(*names):
+    def one(o, n):
+        for part in n.split('.'):
+            o = getattr(o, part)
+        return o
+    if len(names) == 1:
+        return lambda o: one(o, names[0])
+    return lambda o: tuple(one(o, n) for n in names)
+
+
+def _op_cmp(a, b, op):
+    import operator as _o
+    if any(isinstance(v, (Poly, AT, Sym, SymDim, Pred)) for v in (a, b)):
+        if op == '!=':
+            return Pred.compare(lift(a), lift(b), '==').negate()
+        return Pred.compare(lift(a), lift(b), op)
+    return {'>=': _o.ge, '<=': _o.le, '>': _o.gt, '<': _o.lt, '==': _o.eq, '!=': _o.ne}[op](a, b)
 
 
 def _isnan(x):
@@ -1445,10 +1496,14 @@ def make_world_externals(world_ref):
         'warnings': NS("warnings", warn=_print, catch_warnings=lambda *a, **k: None, filterwarnings=_print),
         'operator': NS("operator", getitem=lambda a, b: a[b], add=lambda a, b: a + b, sub=lambda a, b: a - b, mul=lambda a, b: a * b,
                        truediv=lambda a, b: a / b, floordiv=lambda a, b: a // b, mod=lambda a, b: a % b, neg=lambda a: -a,
-                       pow=lambda a, b: a ** b, matmul=lambda a, b: a @ b, and_=lambda a, b: as_pred(a) & as_pred(b),
+                       pow=lambda a, b: a ** b, matmul=lambda a, b: a @ b,
+                       ge=lambda a, b: _op_cmp(a, b, '>='), le=lambda a, b: _op_cmp(a, b, '<='), gt=lambda a, b: _op_cmp(a, b, '>'),
+                       lt=lambda a, b: _op_cmp(a, b, '<'), eq=lambda a, b: _op_cmp(a, b, '=='), ne=lambda a, b: _op_cmp(a, b, '!='),
+                       is_=lambda a, b: a is b, is_not=lambda a, b: a is not b, contains=lambda a, b: b in a,
+                       truth=lambda a: bool(a), index=lambda a: _dim(a), and_=lambda a, b: as_pred(a) & as_pred(b),
                        or_=lambda a, b: as_pred(a) | as_pred(b), not_=lambda a: as_pred(a).negate() if isinstance(a, Pred) else (not a),
                        itemgetter=lambda *k: (lambda o: o[k[0]] if len(k) == 1 else tuple(o[x] for x in k)),
-                       attrgetter=lambda n: (lambda o: getattr(o, n))),
+                       attrgetter=_attrgetter),
         'numpy': NS("numpy", asarray=_np_asarray, cumsum=_np_cumsum, ndarray=ExternalClass('np.ndarray')),
         'math': NS("math", prod=_math_prod),
         'copy': NS("copy", deepcopy=lambda x: x),
@@ -1463,7 +1518,7 @@ def make_world_externals(world_ref):
         Exception=Exception, UserWarning=UserWarning, DeprecationWarning=DeprecationWarning,
         classmethod=ClassMethodW, staticmethod=StaticMethodW, property=PropertyW,
         Ellipsis=Ellipsis, NotImplemented=NotImplemented, object=object, repr=repr, id=id, chr=chr, ord=ord,
-        round=_round, divmod=divmod, iter=iter, next=next,
+        round=_round, divmod=divmod, iter=iter, next=next, pow=lambda a, b, *m: a ** b,
     )
     builtins['None'] = None
     builtins['True'] = True
